@@ -27,6 +27,7 @@ def run(prog, rep, tier='quick'):
         'NOT decided: invertibility, positivity of the variance/PSD, the least-squares characterisation (numerical).')
     rep.rule('solver-input', 'the sequence handed to arcovar / arcovar_marple has exactly `lag` values and the order is P')
     rep.rule('counts', 'symbolic length of the returned coefficient vectors equals the requested order')
+    rep.rule('solver-output', 'the AR coefficients returned by arma_estimate derive from the first result of arcovar / arcovar_marple (value identity through slicing)')
     rep.rule('exposure', 'identity of the abstract values: arma2psd(A,B,rho,T) receives obj.ar / obj.ma / obj.rho / obj.sampling')
     rep.rule('guard', 'ma(X,Q,M) has a normal path iff 0 < Q < M (constant contexts on both sides of each bound)')
     f = prog.func('arma', 'arma_estimate')
@@ -56,6 +57,22 @@ def run(prog, rep, tier='quick'):
                 else:
                     rep.violation('solver-input', f.qname, label, 'the covariance solver receives %s values (order %s): the AR part is '
                                   'not the least-squares solution over lags Q+1..lag' % (ln, getattr(o, 'v', o)), where)
+            # which result of the solver becomes the AR part: the FORWARD predictor (first component / arcovar's solution)
+            if len(calls) == 1 and isinstance(v, Tup) and len(v.items) == 3 and isinstance(calls[0]['ret'], Tup):
+                ret = calls[0]['ret']
+                arv = v.items[0]
+                src = getattr(arv, 'base_uid', None) if getattr(arv, 'base_uid', None) is not None else getattr(arv, 'uid', None)
+                uids = [getattr(x, 'uid', None) for x in ret.items]
+                if src in uids or getattr(arv, 'uid', None) in uids:
+                    pos = uids.index(src) if src in uids else uids.index(arv.uid)
+                    if pos == 0:
+                        rep.proved('solver-output', f.qname, label, 'the AR part is the first result (forward predictor) of the solver', where)
+                    else:
+                        rep.violation('solver-output', f.qname, label, 'the AR part is taken from result %d of the covariance solver, not '
+                                      'from its first result: for arcovar_marple that is the backward predictor (conjugate-reversed '
+                                      'dynamics), not the least-squares AR solution' % pos, where)
+                else:
+                    rep.undecided('solver-output', f.qname, label, 'provenance of the AR part not derivable', where)
             if not isinstance(v, Tup) or len(v.items) != 3:
                 rep.undecided('counts', f.qname, label, 'no 3-tuple returned: %r' % (v,), where)
                 continue
